@@ -1576,18 +1576,24 @@ func runC09(a *Args) error {
 	rng := NewRng(a.Seed)
 	prelude := "From NV Require Import Base C09_Model.\nOpen Scope string_scope.\n"
 	w := NewCaseWriter(a, "C09", prelude, "case", "run")
-	w.Rule = "documents of both kinds drawn from a grammar of valid documents (1-3 statements; levels, legal overrides, verifyTimestamp, type:name stores, wildcard / x509.subject / foreign-prefix identities with varied DN spelling (S alias, spaces, ';', backslash and hex escapes), unique scopes, at most one non-skip global statement). Streams: (1) single-edit, systematic: 39 rule-violating and 10 benign operators x both kinds, three statements with the rule violated in the first / middle / last one, the odd element at the front / middle / end of its list, every item of the operator's pool, all ordered pairs for duplicates, narrower/broader/unrelated DN in every order; (2) history: ONE document instance per kind validated repeatedly while edited in place (valid, broken, repaired), in half of the histories the very same struct handed to two consecutive steps and to NewVerifierWithOptions; (3) grammar with 0, 1 or 2 random edits; (4) randomly assembled documents; (5) fixed regression documents (F1, F11, spec examples, nil). Each document is validated as a Go struct (nil or empty slices/maps at random), validated after decoding JSON text written with literal member names (optional members omitted / empty / null at random, duplicate members sometimes), handed to NewVerifierWithOptions (sometimes together with a document of the other kind), and for accepted documents GetVerificationLevel of every statement is recorded. Frame check on every case: the documents handed to Validate, GetVerificationLevel and NewVerifierWithOptions are deep-snapshotted before and compared after (a change is an implementation violation). non-trivial = at most two edits, or random stream with at most two bad picks; distinct = distinct (kind, document, other document)"
+	w.Rule = "documents of both kinds drawn from a grammar of valid documents (1-3 statements; levels, legal overrides, verifyTimestamp, type:name stores, wildcard / x509.subject / foreign-prefix identities with varied DN spelling (S alias, spaces, ';', backslash and hex escapes), unique scopes, at most one non-skip global statement). Streams: (1) single-edit, systematic: 39 rule-violating and 10 benign operators x both kinds, three statements with the rule violated in the first / middle / last one, the odd element at the front / middle / end of its list, every item of the operator's pool, all ordered pairs for duplicates, narrower/broader/unrelated DN in every order; (2) history: ONE document instance per kind validated repeatedly while edited in place (valid, broken, repaired), in half of the histories the very same struct handed to two consecutive steps and to NewVerifierWithOptions; (3) grammar with 0, 1 or 2 random edits; (4) randomly assembled documents; (5) regex-roles: fresh strings on which the host and the repository expression disagree (upper case / port vs underscore) used in both roles, after an unobserved Validate or GetApplicableTrustPolicy over the same strings in the other role (both orders) and inside one document; (6) fixed regression documents (F1, F11, spec examples, nil). Each document is validated as a Go struct (nil or empty slices/maps at random), validated after decoding JSON text written with literal member names (optional members omitted / empty / null at random, duplicate members sometimes), handed to NewVerifierWithOptions (sometimes together with a document of the other kind), and for accepted documents GetVerificationLevel of every statement is recorded. Frame check on every case: the documents handed to Validate, GetVerificationLevel and NewVerifierWithOptions are deep-snapshotted before and compared after (a change is an implementation violation). non-trivial = at most two edits, or random stream with at most two bad picks; distinct = distinct (kind, document, other document)"
 	w.Assumptions = []string{
 		"override maps have unique keys (Go map); identity strings are ASCII (limit of the byte-level model of go-ldap ParseDN, C04_DN); all strings are valid UTF-8 (JSON route)",
 		"error classes are recognised from stable phrases of the error texts; the four override-entry errors of GetVerificationLevel are one class (Go map iteration order)",
 		"supported versions (\"1.0\"), the wildcard \"*\" and the prefix \"x509.subject\" are written by hand in C09_Model.v (not in Generated.v)",
 	}
 	var id int64
+	var pendingPre func()
 	emit := func(kind, stream string, edits []string, d, other *hDoc, nontrivial bool) {
 		my := id
 		id++
+		pre := pendingPre
+		pendingPre = nil
 		if !w.Want(my) {
 			return
+		}
+		if pre != nil {
+			pre() // unobserved library calls made before this case (part of the case: a replay repeats them)
 		}
 		if !asciiIds(d) || !asciiIds(other) {
 			panic("c09: generator produced a non-ASCII identity")
@@ -1761,6 +1767,82 @@ func runC09(a *Args) error {
 		kind := Pick(rng, kinds)
 		d, bad := randomDoc(kind, rng)
 		emit(kind, "random", nil, d, otherDoc(kind), bad <= 2)
+	}
+	// 3b. strings on which the host and the repository expression DISAGREE, used in
+	// both roles: a verdict remembered for a string in one role must not decide the
+	// other role. Each case carries its own unobserved prelude (a Validate of another
+	// document, or a GetApplicableTrustPolicy look-up) over fresh strings, in both orders;
+	// plus both roles inside one document. Every case is judged on its own document.
+	{
+		oneDoc := func(scopes ...[]string) *hDoc {
+			d := &hDoc{Version: "1.0"}
+			for i, sc := range scopes {
+				d.Stmts = append(d.Stmts, hStmt{Name: fmt.Sprintf("p%d", i), SV: hSV{Level: "strict"}, Stores: []string{"ca:a"}, Ids: []string{"*"}, Scopes: sc})
+			}
+			return d
+		}
+		const dg = "@sha256:9834876dcfb05cb167a5c24953eba58c4ac89b1adf57f28f2f9d09af107ee8f0"
+		hostForms := []string{"Host%d", "Registry-Host%d:5000", "localhost%d:80", "H%d.IO", "A%d"}
+		repoForms := []string{"a__b%d", "x_y%d", "r%d_s", "q%d__0", "z%d_z"}
+		rounds := 2
+		if a.Tier == "thorough" {
+			rounds = 20
+		}
+		k := 0
+		fresh := func() (string, string) {
+			k++
+			return fmt.Sprintf(hostForms[k%len(hostForms)], k), fmt.Sprintf(repoForms[(k/len(hostForms)+k)%len(repoForms)], k)
+		}
+		validate := func(d *hDoc) func() {
+			return func() { guarded(func() error { return toOCI(d).Validate() }) }
+		}
+		lookup := func(ref string) func() {
+			return func() {
+				guarded(func() error {
+					_, err := toOCI(oneDoc([]string{"*"})).GetApplicableTrustPolicy(ref)
+					return err
+				})
+			}
+		}
+		for r := 0; r < rounds*len(hostForms); r++ {
+			h, rp := fresh()
+			pendingPre = validate(oneDoc([]string{h + "/" + rp}))
+			emit("oci", "regex-roles", []string{"valid-then-swapped"}, oneDoc([]string{rp + "/" + h}), nil, true)
+			h, rp = fresh()
+			pendingPre = validate(oneDoc([]string{rp + "/" + h}))
+			emit("oci", "regex-roles", []string{"swapped-then-valid"}, oneDoc([]string{h + "/" + rp}), nil, true)
+			h, rp = fresh()
+			pendingPre = validate(oneDoc([]string{h + "/x"}, []string{"y.io/" + rp}))
+			emit("oci", "regex-roles", []string{"valid-then-host-as-repo"}, oneDoc([]string{"y.io/" + h}), nil, true)
+			h, rp = fresh()
+			pendingPre = validate(oneDoc([]string{h + "/x"}, []string{"y.io/" + rp}))
+			emit("oci", "regex-roles", []string{"valid-then-repo-as-host"}, oneDoc([]string{rp + "/x"}), nil, true)
+			h, rp = fresh()
+			pendingPre = validate(oneDoc([]string{"y.io/" + h}))
+			emit("oci", "regex-roles", []string{"host-as-repo-then-valid"}, oneDoc([]string{h + "/x"}), nil, true)
+			h, rp = fresh()
+			pendingPre = validate(oneDoc([]string{rp + "/x"}))
+			emit("oci", "regex-roles", []string{"repo-as-host-then-valid"}, oneDoc([]string{"y.io/" + rp}), nil, true)
+			h, rp = fresh()
+			emit("oci", "regex-roles", []string{"one-statement-valid-swapped"}, oneDoc([]string{h + "/" + rp, rp + "/" + h}), nil, true)
+			h, rp = fresh()
+			emit("oci", "regex-roles", []string{"one-statement-swapped-valid"}, oneDoc([]string{rp + "/" + h, h + "/" + rp}), nil, true)
+			h, rp = fresh()
+			emit("oci", "regex-roles", []string{"two-statements-valid-swapped"}, oneDoc([]string{h + "/" + rp}, []string{rp + "/" + h}), nil, true)
+			h, rp = fresh()
+			emit("oci", "regex-roles", []string{"two-statements-swapped-valid"}, oneDoc([]string{rp + "/" + h}, []string{h + "/" + rp}), nil, true)
+			h, rp = fresh()
+			emit("oci", "regex-roles", []string{"same-string-both-roles"}, oneDoc([]string{h + "/x", "y.io/" + rp}, []string{"z.io/" + h}), nil, true)
+			h, rp = fresh()
+			pendingPre = lookup(h + "/" + rp + dg)
+			emit("oci", "regex-roles", []string{"lookup-valid-then-swapped"}, oneDoc([]string{rp + "/" + h}), nil, true)
+			h, rp = fresh()
+			pendingPre = lookup(rp + "/" + h + dg)
+			emit("oci", "regex-roles", []string{"lookup-swapped-then-valid"}, oneDoc([]string{h + "/" + rp}), nil, true)
+			h, rp = fresh()
+			pendingPre = lookup("y.io/" + h + dg)
+			emit("oci", "regex-roles", []string{"lookup-host-as-repo-then-valid"}, oneDoc([]string{h + "/x"}, []string{"y.io/" + rp}), nil, true)
+		}
 	}
 	// 4. nil documents next to a document of the other kind
 	for i := 0; i < 12; i++ {
